@@ -78,6 +78,10 @@ impl Rng {
         &items[self.below(items.len())]
     }
 
+    pub fn pick_str<'a>(&mut self, items: &[&'a str]) -> &'a str {
+        items[self.below(items.len())]
+    }
+
     pub fn f64(&mut self) -> f64 {
         (self.next_u64() >> 11) as f64 / (1u64 << 53) as f64
     }
